@@ -1,0 +1,79 @@
+//! Verification hook points (compiled only with `--cfg veryl_verif`).
+//!
+//! `point(name, path)` is a no-op unless one of these environment variables
+//! is set in the process:
+//!
+//! * `VERYL_VERIF_LOG=<file>`   append one line `pid\tindex\tname\tpath` per point
+//! * `VERYL_VERIF_CRASH_AT=<k>` abort the process (no unwinding, no flush) at
+//!   the k-th point reached by this process (0-based)
+//! * `VERYL_VERIF_SOCK=<unix socket>` announce every point on the socket
+//!   (`pid\tindex\tname\tpath\n`) and block until the peer answers one byte:
+//!   `g` = go on, `k` = abort here.  The peer owns the schedule.
+//! * `VERYL_VERIF_FILTER=<substr>` only points whose name contains the
+//!   substring are counted / announced.
+use std::io::{Read, Write};
+use std::path::Path;
+use std::sync::Mutex;
+use std::sync::atomic::{AtomicU64, Ordering};
+
+static COUNTER: AtomicU64 = AtomicU64::new(0);
+static SOCK: Mutex<Option<std::os::unix::net::UnixStream>> = Mutex::new(None);
+
+fn die() -> ! {
+    // like a SIGKILL / power loss: no destructors, no buffered-writer flush
+    unsafe extern "C" {
+        fn _exit(code: i32) -> !;
+    }
+    unsafe { _exit(137) }
+}
+
+pub fn point(name: &str, path: &Path) {
+    let log = std::env::var_os("VERYL_VERIF_LOG");
+    let crash = std::env::var("VERYL_VERIF_CRASH_AT").ok();
+    let sock = std::env::var_os("VERYL_VERIF_SOCK");
+    if log.is_none() && crash.is_none() && sock.is_none() {
+        return;
+    }
+    if let Ok(f) = std::env::var("VERYL_VERIF_FILTER")
+        && !name.contains(&f)
+    {
+        return;
+    }
+    let idx = COUNTER.fetch_add(1, Ordering::SeqCst);
+    let line = format!(
+        "{}\t{}\t{}\t{}\n",
+        std::process::id(),
+        idx,
+        name,
+        path.to_string_lossy()
+    );
+    if let Some(log) = log
+        && let Ok(mut f) = std::fs::OpenOptions::new()
+            .create(true)
+            .append(true)
+            .open(log)
+    {
+        let _ = f.write_all(line.as_bytes());
+    }
+    if let Some(k) = crash
+        && k.parse::<u64>().ok() == Some(idx)
+    {
+        die();
+    }
+    if let Some(sock) = sock {
+        let mut guard = SOCK.lock().unwrap_or_else(|e| e.into_inner());
+        if guard.is_none() {
+            *guard = std::os::unix::net::UnixStream::connect(sock).ok();
+        }
+        if let Some(s) = guard.as_mut() {
+            if s.write_all(line.as_bytes()).is_err() {
+                return;
+            }
+            let mut b = [0u8; 1];
+            match s.read_exact(&mut b) {
+                Ok(()) if b[0] == b'k' => die(),
+                _ => {}
+            }
+        }
+    }
+}
